@@ -437,3 +437,100 @@ Example C19_example_fine_two :
   conn_sat true refute_cf 0 ls 0 is_active = true /\
   conn_sat false refute_cf 0 (ls ++ [FStep]) 0 (fun c => negb (is_active c)) = true.
 Proof. vm_compute. repeat split. Qed.
+
+(* ==== fourth part: one iteration of the two loops, regenerated from the source ====================
+   Gen/GenHealthLoop.v (go2v statement targets): healthIterBody = the statements of the health-check
+   loop body that follow the ping (health.go), sweepLoopBody = the body of the sweep's closing loop
+   (idle_sweep.go).  Proofs/HealthLoopGenP.v. *)
+From Verif Require Import Gen.GenRetry Gen.GenHealthLoop Proofs.HealthLoopGenP.
+
+(* The generated iteration of the health-check loop is health_iter of Model/Health.v -- the
+   iteration all health theorems above are about -- for EVERY value of
+   c.log.Enabled(LogLevelDebug) (dbg): the counter, the value added to the history, whether the
+   loop goes on and whether the connection is closed do not depend on the logging configuration.
+   (The counter is a Go int: the equality is for counters below 2^63 - 1.) *)
+Theorem C19_gen_health_iter : forall F err inv dbg l,
+  - 2 ^ 63 <= hl_fails l + 1 < 2 ^ 63 ->
+  iter_of_gen l (healthIterBody (hl_fails l) err inv F dbg) = health_iter F (classify err inv) l.
+Proof. exact gen_health_iter. Qed.
+Print Assumptions C19_gen_health_iter.
+
+(* The three clauses of the statement read off the generated iteration, for every logging
+   configuration: the history gets err == nil; a success resets the count to 0 and the loop goes
+   on; a stop outcome returns without closing; a failure adds one; c.close is called iff the
+   outcome is a failure and the new count is >= FailuresToClose. *)
+Theorem C19_gen_health_decision : forall F err inv dbg cf,
+  - 2 ^ 63 <= cf + 1 < 2 ^ 63 ->
+  let '(cf', how, added) := healthIterBody cf err inv F dbg in
+  added = e_nil err /\
+  (classify err inv = POk -> cf' = 0 /\ how = 0) /\
+  (classify err inv = PStop -> cf' = cf /\ how = 1) /\
+  (classify err inv = PFail -> cf' = cf + 1 /\ how = (if cf + 1 >=? F then 2 else 0)) /\
+  (how = 2 <-> classify err inv = PFail /\ cf + 1 >= F).
+Proof. exact gen_health_decision. Qed.
+Print Assumptions C19_gen_health_decision.
+
+(* C19_health for the loop that iterates the GENERATED body: whatever the logger answers in each
+   iteration, the connection is closed at ping i iff pings i-F+1..i failed, no earlier window of
+   F failures exists and no stop outcome occurred. *)
+Theorem C19_gen_health_loop : forall F dbg errs i,
+  1 <= F -> Z.of_nat (length errs) < 2 ^ 63 ->
+  snd (gen_health_loop F dbg errs 0 hl_init) = Some i <-> health_closes_at (Z.to_nat F) (outcomes_of errs) i.
+Proof. exact gen_health_loop_closes_iff. Qed.
+Print Assumptions C19_gen_health_loop.
+
+(* The generated body of the sweep's closing loop, its tests evaluated on the connection as it is
+   at the schedule points that precede them (c1 at idle.sweep.check, c2 at idle.sweep.pending, c3 at
+   idle.sweep.recheck), calls conn.close (at instant 4 = idle.sweep.close) exactly when the poller
+   of Model/IdleSweepFine.v -- IsActive on the state of instant 1, the three counter reads of
+   hasPendingCalls on that of instant 2, the re-check on that of instant 3, in this order --
+   arrives at SClose; otherwise both go on to the next candidate. *)
+Theorem C19_gen_sweep_loop : forall cf now id rest s1 s2 s3 c1 c2 c3,
+  lookup id (ch_conns s1) = Some c1 -> lookup id (ch_conns s2) = Some c2 -> lookup id (ch_conns s3) = Some c3 ->
+  let at_ := conn_at_instant c1 c2 c3 in
+  let body := sweepLoopBody
+    (fun t => connIsActive (k_state (at_ t)))
+    (fun t => hasPendingCalls (k_inb (at_ t)) (k_outb (at_ t)) (relayCanClose (relay_is_nil (at_ t)) (relay_pending (at_ t))))
+    (fun t => fine_idle now (cf_max_idle cf) (at_ t)) in
+  let p := poller_after_tests cf now id rest s1 s2 s3 in
+  (body = 4 /\ p = SClose now id rest) \/ (body = 0 /\ p = SLoop2 now rest).
+Proof. exact gen_sweep_loop. Qed.
+Print Assumptions C19_gen_sweep_loop.
+
+(* ... i.e. it closes iff Active at the first instant, without pending call at the second, idle at
+   the third: the idle re-check is the LAST test before the close. *)
+Theorem C19_gen_sweep_loop_closes : forall act pend idle,
+  sweepLoopBody act pend idle <> 0 <-> act 1 = true /\ pend 2 = false /\ idle 3 = true.
+Proof. exact gen_sweep_loop_closes. Qed.
+Print Assumptions C19_gen_sweep_loop_closes.
+
+(* The activity stamps: updateLastActivityRead / updateLastActivityWrite as generated are the stamp
+   updates of Model/Idle.v (a frame moves its direction's stamp to the clock iff it is a call frame,
+   and never the other stamp) ... *)
+Theorem C19_gen_stamps : forall now mt c,
+  k_lr (update_read now mt c) = stampOnRead mt (unix_nano now) (k_lr c) /\
+  k_lw (update_read now mt c) = k_lw c /\
+  k_lw (update_write now mt c) = stampOnWrite mt (unix_nano now) (k_lw c) /\
+  k_lr (update_write now mt c) = k_lr c.
+Proof. exact gen_stamps. Qed.
+Print Assumptions C19_gen_stamps.
+
+(* ... and the generated bodies of writeFrames / readFrames apply them to EVERY frame: a frame taken
+   off the send channel has been stamped when it is written, whatever the logger answers (dbg) and
+   whether or not the write succeeds; a frame whose body was read has been stamped when it is handed
+   to a handler; a frame that could not be read is not handled. *)
+Theorem C19_gen_stamp_sites : forall dbg ok,
+  fst (writeFrameTaken dbg ok) = 1 /\ snd (writeFrameTaken dbg ok) = (if ok then 0 else 1) /\
+  readFrameBody true = 1 /\ readFrameBody false = -1.
+Proof. exact gen_stamp_sites. Qed.
+Print Assumptions C19_gen_stamp_sites.
+
+(* non-vacuity: FailuresToClose 2, a logger without debug level: fail, ok, fail does not close;
+   fail, ok, fail, fail closes at the fourth ping *)
+Example C19_example_gen_health :
+  let fail := ({| e_nil := false; e_sys := true; e_code := 5; e_net := false |}, false) in
+  let ok := ({| e_nil := true; e_sys := false; e_code := 0; e_net := false |}, false) in
+  snd (gen_health_loop 2 (fun _ => false) [fail; ok; fail] 0 hl_init) = None /\
+  snd (gen_health_loop 2 (fun _ => false) [fail; ok; fail; fail] 0 hl_init) = Some 3%nat /\
+  snd (gen_health_loop 2 (fun i => Nat.even i) [fail; ok; fail; fail] 0 hl_init) = Some 3%nat.
+Proof. vm_compute. repeat split. Qed.
